@@ -663,6 +663,16 @@ def c05(tier, seed):
                 prop["sleepAt"] = rng.randrange(1, 60)
                 prop["sleepMs"] = 90
             out.append(scenario("c05-%s-%d-%s" % (tn, i, st), prop, fl, tag=tag))
+    # very long state-machine runs (-rapid.steps=2000) whose actions are rejected after drawing: the stop of the machine is forced, and the forced stop
+    # waits for a coin that stops by itself -- with a continue probability this high it may wait in vain.  Whatever is reported must still replay.
+    for i in range(15 if tier == "quick" else 90):
+        body = [op("repeat", actions={"a": [draw(IntRange(0, 9), "r", "r"), iff("r", "ge", rng.choice([0, 3]), [op("skip")])], "b": [draw(g("Bool"), "w"), op("skip")]}),
+                draw(g("Int16"), "t", "t"), draw(g("SliceOf", elem=g("Byte")), "tail"), iff("t", "ge", 50, [op("fatalf", site=1)])]
+        st = ["0s", "0s", "full"][i % 3]
+        fl = {"checks": 60, "seed": rng.randrange(1, 1 << 64), "nofailfile": "true", "steps": rng.choice([2000, 5000])}
+        if st == "0s":
+            fl["shrinktime"] = "0s"
+        out.append(scenario("c05-longsm-%d-%s" % (i, st), {"body": body}, fl, tag={"template": "long state machine, rejected actions", "shrink": st}))
     return out + random_scripts("c05", tier, seed, 40, 1200, flags={"nofailfile": "true", "checks": 100}, tag={"template": "random", "shrink": "mixed"})
 
 
